@@ -203,6 +203,9 @@ class StoreModel(Model):
             ev.append(('add_link', g, 'a', 'c'))
             ev.append(('upd_prop', g, 'a', 'P', '1'))
             ev.append(('upd_prop', g, 'b', 'P', '2'))
+            # a single node "moved" by rewriting its graph id: refused (whole graphs are re-keyed, not nodes) - if it is
+            # carried out, the frame condition judges what happened to the other graph
+            ev.append(('upd_prop', g, 'a', 'GraphID', GIDS[(GIDS.index(g) + 1) % len(GIDS)]))
             ev.append(('upd_props', g, 'a'))
             ev.append(('unset_prop', g, 'a', 'P'))
             ev.append(('upd_all', g, 'P', 'all'))
